@@ -309,6 +309,11 @@ pub fn bounds(tier: Tier) -> Value {
 }
 
 fn check_program(w: &mut Worker, rig: &Rig, name: &str, text: &str, tape: &[(Key, u16)], horizon: usize) {
+    check_program_at(w, rig, name, text, tape, horizon, &[])
+}
+
+/// `only`: the halting points to try (empty: every point up to the horizon)
+fn check_program_at(w: &mut Worker, rig: &Rig, name: &str, text: &str, tape: &[(Key, u16)], horizon: usize, only: &[usize]) {
     let cj = json!({"program": name, "script": text, "tape": tape.iter().map(|(k, c)| json!([k.0, k.1, c])).collect::<Vec<_>>()});
     w.begin(|| cj.clone());
     // the unhalted run (cut by a budget far beyond the horizon when it does not terminate)
@@ -326,7 +331,8 @@ fn check_program(w: &mut Worker, rig: &Rig, name: &str, text: &str, tape: &[(Key
     let mut runs = 1u64;
     let mut failure: Option<(String, String, usize, Setter)> = None;
     let kmax = n.min(horizon);
-    'outer: for k in 0..=kmax {
+    let ks: Vec<usize> = if only.is_empty() { (0..=kmax).collect() } else { only.iter().cloned().filter(|k| *k <= kmax).collect() };
+    'outer: for k in ks {
         for setter in [Setter::SelfSet, Setter::Thread] {
             if k == 0 && setter == Setter::Thread {
                 continue;
@@ -439,6 +445,21 @@ pub fn worker(w: &mut Worker) {
             check_program(w, &rig, name, &text, &[], horizon);
         }
     }
+    // halting late: thousands of command entries into loops that are still running
+    {
+        let late: Vec<usize> = tier.pick(vec![999, 5000], vec![999, 5000, 5001, 60_000]);
+        let far = *late.iter().max().unwrap() + 10;
+        let programs = [
+            ("late-halt-while", "i = set 0\nwhile true\ni = calc ${i} + 1\nend\nafter = set reached".to_string()),
+            ("late-halt-nested", "i = set 0\nwhile true\narr = range 0 3\nfor x in ${arr}\ni = calc ${i} + 1\nend\nrelease ${arr}\nend\nafter = set reached".to_string()),
+            ("late-halt-function", "fn step\nr = calc ${1} + 1\nreturn ${r}\nend\ni = set 0\nwhile true\ni = step ${i}\nend\nafter = set reached".to_string()),
+        ];
+        for (name, text) in programs {
+            if w.take() {
+                check_program_at(w, &rig, name, &text, &[], far, &late);
+            }
+        }
+    }
     // generated block programs under a few fixed answer tapes
     let nmax = tier.pick(2usize, 3usize);
     for n in 1..=nmax {
@@ -501,7 +522,7 @@ pub fn crash_sig(_case: &Value, kind: &str) -> String {
     kind.to_string()
 }
 
-pub const RULE: &str = "programs: 30 hand-written scripts over the standard library (straight line, goto loops, while true, for-in, nested loops, error path with on_error, functions plain/scoped/in condition position, script-implemented commands, alias, scope stack; 7 of them do not terminate) and the generated block programs of C04 under fixed answer tapes; every registered command (library, flow control, harness) is re-registered behind a wrapper that logs the entry with its nesting depth and is the scheduling point. For every command entry k of the unhalted run up to the horizon, top level or nested, plus k=0 (flag set before the run), the flag is raised at that point by the command itself and, separately, by a second OS thread the wrapper hands control to over a rendezvous channel. Oracle: the halted run returns Ok; its entry log equals the unhalted log up to the end of the top-level instruction in flight; no further top-level instruction starts; returned variables and the collections behind the handle table equal those at that boundary of the unhalted run. evaluations = programs; transitions = runs; non-trivial = program with nested command entries or non-terminating";
+pub const RULE: &str = "programs: 30 hand-written scripts over the standard library (straight line, goto loops, while true, for-in, nested loops, error path with on_error, functions plain/scoped/in condition position, script-implemented commands, alias, scope stack; 7 of them do not terminate) and the generated block programs of C04 under fixed answer tapes; every registered command (library, flow control, harness) is re-registered behind a wrapper that logs the entry with its nesting depth and is the scheduling point. For every command entry k of the unhalted run up to the horizon, top level or nested, plus k=0 (flag set before the run), the flag is raised at that point by the command itself and, separately, by a second OS thread the wrapper hands control to over a rendezvous channel. Oracle: the halted run returns Ok; its entry log equals the unhalted log up to the end of the top-level instruction in flight; no further top-level instruction starts; returned variables and the collections behind the handle table equal those at that boundary of the unhalted run. evaluations = programs; transitions = runs; non-trivial = program with nested command entries or non-terminating. Scale cases: the flag raised 999 / 5000 (thorough also 5001 and 60000) command entries into an endless while loop, a loop nest and a loop calling a function, by the command itself and by the second thread";
 pub const ASSUMPTIONS: &[&str] = &["the setter's only visible action is one SeqCst store on the shared AtomicBool; the runner's only visible actions on it are its polls, so placing the store at every command entry plus 'before the run' covers the interleaving space at command-entry granularity", "a store landing inside a single command's Rust body is indistinguishable from a store at its entry as long as commands do not read the flag"];
 pub const EXHAUSTIVE: bool = true;
 pub const WALL_CAP_S: (u64, u64) = (55, 1500);
